@@ -68,8 +68,81 @@ fn filter_obs(f: &Filter, consumed: usize) -> String {
     )
 }
 
+/// db script: commands separated by '|' (or newlines when read from @file):
+///   store <id32hex> <pubkey32hex> <kind> <created_at> <contenthex|-> [tag;tag;...]   tag = hexstr,hexstr,...
+///   remove <idhex> | get <idhex> | has <idhex> | is_deleted <idhex> | get_offset <n>
+///   naddr_deleted <kind> <authorhex> <dhex|-> | find_repl <authorhex> <kind> | find_param <kind> <authorhex> <dhex|->
+///   rebuild | reopen | stats | query <filter-json-hex>
+fn db_script(script: &str) -> String {
+    use pocket_db::Store;
+    use pocket_types::{Id, Kind, OwnedEvent, OwnedTags, Pubkey, Sig, Time};
+    let dir = std::env::temp_dir().join(format!("pocket-replay-db-{}", std::process::id()));
+    let _ = std::fs::remove_dir_all(&dir);
+    std::fs::create_dir_all(&dir).unwrap();
+    let mut store = Some(Store::new(&dir, vec![]).unwrap());
+    let mut out: Vec<String> = Vec::new();
+    let h32 = |s: &str| -> [u8; 32] { let v = unhex(s); let mut a = [0u8; 32]; a.copy_from_slice(&v); a };
+    let hd = |s: &str| -> Vec<u8> { if s == "-" { vec![] } else { unhex(s) } };
+    for cmd in script.split(|c| c == '|' || c == '\n') {
+        let w: Vec<&str> = cmd.split_whitespace().collect();
+        if w.is_empty() { continue; }
+        let st = store.as_ref().unwrap();
+        let res = match w[0] {
+            "store" => {
+                let tags: Vec<Vec<String>> = if w.len() > 6 {
+                    w[6].split(';').filter(|t| !t.is_empty()).map(|t| t.split(',').map(|x| String::from_utf8_lossy(&hd(x)).to_string()).collect()).collect()
+                } else { vec![] };
+                let otags = OwnedTags::new(&tags).unwrap();
+                let ev = OwnedEvent::new(Id::from_bytes(h32(w[1])), Kind::from_u16(w[3].parse().unwrap()), Pubkey::from_bytes(h32(w[2])),
+                    Sig::from_bytes([0u8; 64]), &otags, Time::from_u64(w[4].parse().unwrap()), &hd(w[5])).unwrap();
+                match st.store_event(&ev) { Ok(o) => format!("\"ok:{}\"", o), Err(e) => format!("\"err:{}\"", e.inner) }
+            }
+            "remove" => match st.remove_event(Id::from_bytes(h32(w[1]))) { Ok(()) => "\"ok\"".into(), Err(e) => format!("\"err:{}\"", e.inner) },
+            "get" => match st.get_event_by_id(Id::from_bytes(h32(w[1]))) { Ok(Some(e)) => format!("\"some:{}\"", hex(e.as_bytes())), Ok(None) => "\"none\"".into(), Err(e) => format!("\"err:{}\"", e.inner) },
+            "has" => match st.has_event(Id::from_bytes(h32(w[1]))) { Ok(b) => format!("{}", b), Err(e) => format!("\"err:{}\"", e.inner) },
+            "is_deleted" => match st.event_is_deleted(Id::from_bytes(h32(w[1]))) { Ok(b) => format!("{}", b), Err(e) => format!("\"err:{}\"", e.inner) },
+            "get_offset" => match st.get_event_by_offset(w[1].parse().unwrap()) { Ok(e) => format!("\"some:{}\"", hex(e.as_bytes())), Err(e) => format!("\"err:{}\"", e.inner) },
+            "naddr_deleted" => {
+                let a = Addr { kind: Kind::from_u16(w[1].parse().unwrap()), author: Pubkey::from_bytes(h32(w[2])), d: hd(w[3]) };
+                match st.naddr_is_deleted_asof(&a) { Ok(Some(t)) => format!("{}", t.as_u64()), Ok(None) => "null".into(), Err(e) => format!("\"err:{}\"", e.inner) }
+            }
+            "find_repl" => match st.find_replaceable_event(Pubkey::from_bytes(h32(w[1])), Kind::from_u16(w[2].parse().unwrap())) {
+                Ok(Some(e)) => format!("\"some:{}\"", hex(e.id().as_slice())), Ok(None) => "\"none\"".into(), Err(e) => format!("\"err:{}\"", e.inner) },
+            "find_param" => {
+                let a = Addr { kind: Kind::from_u16(w[1].parse().unwrap()), author: Pubkey::from_bytes(h32(w[2])), d: hd(w[3]) };
+                match st.find_parameterized_replaceable_event(&a) { Ok(Some(e)) => format!("\"some:{}\"", hex(e.id().as_slice())), Ok(None) => "\"none\"".into(), Err(e) => format!("\"err:{}\"", e.inner) }
+            }
+            "stats" => match st.stats() { Ok(s) => format!("{{\"event_bytes\":{},\"i\":{},\"ci\":{},\"tc\":{},\"ac\":{},\"akc\":{},\"atc\":{},\"ktc\":{},\"deleted\":{},\"naddr_deleted\":{}}}",
+                s.event_bytes, s.index_stats.i_index_entries, s.index_stats.ci_index_entries, s.index_stats.tc_index_entries, s.index_stats.ac_index_entries,
+                s.index_stats.akc_index_entries, s.index_stats.atc_index_entries, s.index_stats.ktc_index_entries, s.index_stats.deleted_index_entries, s.index_stats.deleted_naddr_index_entries),
+                Err(e) => format!("\"err:{}\"", e.inner) },
+            "query" => {
+                let fj = unhex(w[1]);
+                let mut buf = vec![0u8; 65536];
+                match Filter::from_json(&fj, &mut buf) {
+                    Ok((_, _, f)) => match st.find_events(f, true, 0, 0, |_| pocket_db::ScreenResult::Match) {
+                        Ok((evs, _)) => format!("[{}]", evs.iter().map(|e| format!("\"{}\"", hex(e.id().as_slice()))).collect::<Vec<_>>().join(",")),
+                        Err(e) => format!("\"err:{}\"", e.inner) },
+                    Err(e) => format!("\"filter-err:{}\"", e.inner),
+                }
+            }
+            "rebuild" => { let s0 = store.take().unwrap(); match unsafe { s0.rebuild() } { Ok(s1) => { store = Some(s1); "\"ok\"".into() } Err(e) => { let m = format!("\"err:{}\"", e.inner); store = Some(Store::new(&dir, vec![]).unwrap()); m } } }
+            "reopen" => { drop(store.take()); store = Some(Store::new(&dir, vec![]).unwrap()); "\"ok\"".into() }
+            other => format!("\"unknown command {}\"", other),
+        };
+        out.push(res);
+    }
+    drop(store);
+    let _ = std::fs::remove_dir_all(&dir);
+    format!("{{\"outcome\":\"ok\",\"results\":[{}]}}", out.join(","))
+}
+
 fn run(op: &str, args: &[String]) -> String {
     match op {
+        "db_script" => {
+            let s = if let Some(p) = args[0].strip_prefix('@') { std::fs::read_to_string(p).unwrap() } else { args[0].clone() };
+            db_script(&s)
+        }
         "event_from_json" => {
             let input = unhex(&args[0]);
             let buflen: usize = args[1].parse().unwrap();
